@@ -24,6 +24,7 @@ from pedal.sandbox.exceptions import SandboxHasNoFunction, SandboxHasNoVariable
 from pedal.sandbox.timeout import timeout
 from pedal.sandbox.result import SandboxResult
 from pedal.sandbox.tracer import TRACER_STYLES
+from pedal.utilities import verif_hooks
 
 
 class Sandbox:
@@ -163,6 +164,8 @@ class Sandbox:
                 with self.trace.as_filename(filename, code):
                     exec(compiled_code, self.data)
             except BaseException as student_exception:
+                if verif_hooks.ENABLED:
+                    verif_hooks.sync("T:exit")
                 outcome.append(student_exception)
 
         timeout(self.allowed_time, run_student_code)
@@ -191,7 +194,11 @@ class Sandbox:
                 with self.trace.as_filename(filename, code):
                     exec(compiled_code, self.data)
         except Exception as user_exception:
+            if verif_hooks.ENABLED and isinstance(user_exception, TimeoutError):
+                verif_hooks.sync("M:handler")
             self._stop_mocking(context)
+            if verif_hooks.ENABLED and isinstance(user_exception, TimeoutError):
+                verif_hooks.sync("M:unpatched")
             self._capture_exception(user_exception, sys.exc_info(),
                                     code, filename)
         # NOTE: https://docs.python.org/3/library/exceptions.html#SystemExit
